@@ -221,6 +221,11 @@ class Flow:
     def s_NullStmt(self, n, st):
         return [Outcome('next', st)]
 
+    def s_AttributedStmt(self, n, st):
+        # `__attribute__((fallthrough));` and friends: the attribute has no semantics, the wrapped statement is executed
+        inner = [c for c in n.get('inner', []) if 'Attr' not in c['kind']]
+        return self.exec_stmt(inner[0], st) if inner else [Outcome('next', st)]
+
     def s_CompoundStmt(self, n, st):
         cur = [st]
         done = []
